@@ -243,6 +243,7 @@ func (r *c27Run) Main(s *sim.Sim) {
 func stuckCallSig() string {
 	seen := map[string]bool{}
 	var out []string
+	loopWaitsForLock := false
 	for _, g := range strings.Split(sim.GoroutineDump(), "\n\n") {
 		if !strings.Contains(g, "verif/scen.(*c27Run).Main") && !clientFrameRe.MatchString(g) {
 			continue
@@ -263,6 +264,9 @@ func stuckCallSig() string {
 			continue
 		}
 		if strings.Contains(g, "simhook.(*RWMutex)") || strings.Contains(g, "simhook.(*Mutex)") {
+			if strings.Contains(g, ".(*Client).publish(") || strings.Contains(g, ".(*Client).monitorSubscriptions") {
+				loopWaitsForLock = true
+			}
 			continue // waits for a lock held by one of the root causes below
 		}
 		var k string
@@ -296,6 +300,12 @@ func stuckCallSig() string {
 			seen[k] = true
 			out = append(out, k)
 		}
+	}
+	// the publish loop waits for subMux: in the catalogued deadlock the holder is a
+	// forget that sends on the full pausech; if no such holder is among the blocked
+	// goroutines, somebody else sits on the lock while blocked (a different defect)
+	if loopWaitsForLock && !seen["send-on-full-pausech-while-holding-subMux"] {
+		out = append(out, "publish-loop-waits-for-subMux-held-by-a-blocked-call-other-than-forget")
 	}
 	sort.Strings(out)
 	if len(out) > 3 {
